@@ -176,11 +176,11 @@ Definition wf_node (A D : list var) (nd : nref * list plan) : Prop :=
   (forall o, ~ In (V (fst nd) o) D) /\ fold_right (fun s acc => wfP s A D /\ acc) True (snd nd).
 
 Definition Pg (g : mgraph) : Prop := forall gid A ev en,
-  graph_names_ok p main tbl gid g = true -> wfP (plan_of_graph p main gid g) A (map fst ev) -> R (map fst ev) ev en ->
-  forall av, rnamed g en av = rgraph (plan_of_graph p main gid g) ev av.
+  graph_names_ok p main tbl gid g = true -> wfP (plan_of_graph p gid g) A (map fst ev) -> R (map fst ev) ev en ->
+  forall av, rnamed g en av = rgraph (plan_of_graph p gid g) ev av.
 Definition Qn (n : mnode) : Prop := forall A ev en,
-  node_names_ok p main tbl n = true -> wf_node A (map fst ev) (plan_of_node p main n) -> R (map fst ev) ev en ->
-  R (map fst (pstep rgraph ev (plan_of_node p main n))) (pstep rgraph ev (plan_of_node p main n)) (nstepN en n).
+  node_names_ok p main tbl n = true -> wf_node A (map fst ev) (plan_of_node p n) -> R (map fst ev) ev en ->
+  R (map fst (pstep rgraph ev (plan_of_node p n))) (pstep rgraph ev (plan_of_node p n)) (nstepN en n).
 
 Lemma pstep_dom ev nd : map fst (pstep rgraph ev nd) = outvars noutsn (fst nd) ++ map fst ev.
 Proof. unfold Sem.step. rewrite map_app, map_map. reflexivity. Qed.
@@ -213,7 +213,7 @@ Proof.
   match goal with |- R _ (map _ (seq 0 _) ++ ev) (bindn o (ops u ?iv ?c1) ++ en) =>
     assert (Ecl : ops u iv c1 = ops u iv (map (fun s av => rgraph s ev av)
         ((fix go (l : list (String.string * option mgraph)) : list plan :=
-            match l with [] => [] | (k, Some g) :: t => plan_of_graph p main (sub_id p u k) g :: go t | (_, None) :: t => go t end) al))) end.
+            match l with [] => [] | (k, Some g) :: t => plan_of_graph p (sub_id p u k) g :: go t | (_, None) :: t => go t end) al))) end.
   { apply ops_ext. clear Hins Houts Hsp.
     induction al as [|[k [g|]] t IH]; cbn [fold_right] in *.
     - constructor.
@@ -224,7 +224,113 @@ Proof.
   rewrite Ecl. apply bind_outs_ok; assumption.
 Qed.
 
-Lemma Qn_leaf n u ins outs :
-  (n = MIntro ""%string u ins outs \/ True) -> True.
-Proof. trivial. Qed.
+Lemma Qn_MInit nm0 u : Qn (MInit nm0 u).
+Proof.
+  intros A ev en Hok Hwf HR. cbn [plan_of_node node_names_ok] in *. apply andb_prop in Hok. destruct Hok as [Houts Hins0].
+  destruct Hwf as (Harg & Hin & Hsp & Hfresh & Hsw). cbn [fst snd] in *.
+  rewrite pstep_dom. cbn [fst]. unfold Sem.step. cbn [fst snd nstep map].
+  destruct (insn u) eqn:Ei; [|discriminate]. cbn [map].
+  apply bind_outs_ok; assumption.
+Qed.
+
+Lemma Qn_MIntro nm0 u i o : Qn (MIntro nm0 u i o).
+Proof.
+  intros A ev en Hok Hwf HR. cbn [plan_of_node node_names_ok] in *. apply andb_prop in Hok. destruct Hok as [Hins Houts].
+  apply (list_eqb_eq String.eqb string_eqb_spec) in Hins.
+  destruct Hwf as (Harg & Hin & Hsp & Hfresh & Hsw). cbn [fst snd] in *.
+  rewrite pstep_dom. cbn [fst]. unfold Sem.step. cbn [fst snd nstep map].
+  rewrite Hins, (in_vals_ok (map fst ev) ev en (insn u) Hin HR).
+  apply bind_outs_ok; assumption.
+Qed.
+
+Lemma Qn_MInline nm0 u i o b : Qn (MInline nm0 u i o b).
+Proof.
+  intros A ev en Hok Hwf HR. cbn [plan_of_node node_names_ok] in *. apply andb_prop in Hok. destruct Hok as [Hins Houts].
+  apply (list_eqb_eq String.eqb string_eqb_spec) in Hins.
+  destruct Hwf as (Harg & Hin & Hsp & Hfresh & Hsw). cbn [fst snd] in *.
+  rewrite pstep_dom. cbn [fst]. unfold Sem.step. cbn [fst snd nstep map].
+  rewrite Hins, (in_vals_ok (map fst ev) ev en (insn u) Hin HR).
+  apply bind_outs_ok; assumption.
+Qed.
+
+(* folding the body of a graph *)
+Definition nfold (l : list mnode) (e : nenv val) : nenv val :=
+  (fix go (l : list mnode) (e : nenv val) {struct l} : nenv val := match l with [] => e | n :: t => go t (nstepN e n) end) l e.
+Definition plan_body (l : list mnode) : list (nref * list plan) :=
+  (fix go (l : list mnode) : list (nref * list plan) := match l with [] => [] | n :: t => plan_of_node p n :: go t end) l.
+Definition body_names_ok (l : list mnode) : bool :=
+  (fix go (l : list mnode) : bool := match l with [] => true | n :: t => node_names_ok p main tbl n && go t end) l.
+
+Lemma body_ok gid Ain : forall b ev en,
+  Forall Qn b -> body_names_ok b = true ->
+  wf_body isarg insn subsn gresn noutsn (fun s => wfP s Ain) gid (map fst ev) (plan_body b) -> R (map fst ev) ev en ->
+  R (map fst (fold_left (pstep rgraph) (plan_body b) ev)) (fold_left (pstep rgraph) (plan_body b) ev) (nfold b en) /\
+  (forall r, In r (gresn gid) -> In r (map fst (fold_left (pstep rgraph) (plan_body b) ev))).
+Proof.
+  induction b as [|n t IH]; intros ev en HF Hok Hwf HR.
+  - cbn in *. split; assumption.
+  - inversion HF as [|x l Hn Ht]; subst.
+    change (body_names_ok (n :: t)) with (node_names_ok p main tbl n && body_names_ok t) in Hok.
+    apply andb_prop in Hok. destruct Hok as [Hok_n Hok_t].
+    change (plan_body (n :: t)) with (plan_of_node p n :: plan_body t) in *.
+    cbn [wf_body] in Hwf. destruct Hwf as (Harg & Hin & Hsp & Hfresh & Hsw & Hrest).
+    cbn [fold_left]. change (nfold (n :: t) en) with (nfold t (nstepN en n)).
+    assert (HR' := Hn Ain ev en Hok_n (conj Harg (conj Hin (conj Hsp (conj Hfresh Hsw)))) HR).
+    apply IH; auto. rewrite pstep_dom. exact Hrest.
+Qed.
+
+Lemma Pg_MGraph gi b go_ : Forall Qn b -> Pg (MGraph gi b go_).
+Proof.
+  intros HF gid A ev en Hok Hwf HR av.
+  cbn [graph_names_ok] in Hok. apply andb_prop in Hok. destruct Hok as [Hok Hbody].
+  apply andb_prop in Hok. destruct Hok as [Hok Hgo]. apply andb_prop in Hok. destruct Hok as [Hgi Hgine].
+  apply (list_eqb_eq String.eqb string_eqb_spec) in Hgi. apply (list_eqb_eq String.eqb string_eqb_spec) in Hgo.
+  change (plan_of_graph p gid (MGraph gi b go_)) with (PGraph gid (plan_body b)) in *.
+  cbn [Sem.wf] in Hwf. destruct Hwf as (Hnd & Hargs & Hwb).
+  change (rnamed (MGraph gi b go_) en av) with (map (fun o : String.string * String.string => lookupn (fst o) (nfold b (bindn (map fst gi) av ++ en))) go_).
+  cbn [Sem.run_graph].
+  assert (HR0 : R (gargsn gid ++ map fst ev) (bindv (gargsn gid) av ++ ev) (bindn (map fst gi) av ++ en)).
+  { apply (R_extend (map fst ev) ev en (gargsn gid) (map fst gi) (bindv (gargsn gid) av) av); auto.
+    - intros x Hx. destruct (Hargs x Hx) as (_ & _ & Hn). exact Hn.
+    - apply (bind_dom val dv).
+    - intros i Hi d. apply bindv_lookup; assumption. }
+  assert (Hd0 : map fst (bindv (gargsn gid) av ++ ev) = gargsn gid ++ map fst ev) by (rewrite map_app; f_equal; apply (bind_dom val dv)).
+  rewrite <- Hd0 in HR0, Hwb.
+  destruct (body_ok gid (gargsn gid ++ A) b (bindv (gargsn gid) av ++ ev) (bindn (map fst gi) av ++ en) HF Hbody Hwb HR0) as [HR1 Hres].
+  rewrite <- (map_map fst (fun s => lookupn s (nfold b (bindn (map fst gi) av ++ en)))), Hgo, map_map.
+  apply map_ext_in. intros r Hr. destruct (HR1 r (Hres r Hr)) as [_ Hl]. exact Hl.
+Qed.
+
+Theorem named_is_plan : forall g, Pg g.
+Proof.
+  apply (mgraph_ind' Pg Qn).
+  - exact Pg_MGraph.
+  - exact Qn_MNode.
+  - exact Qn_MInit.
+  - exact Qn_MIntro.
+  - exact Qn_MInline.
+Qed.
 End Main.
+
+
+(* ---------- end to end: the emitted model, executed by names as ONNX executes it, computes the meaning of the requested Vars ---------- *)
+Theorem build_sem_named p r m inputs outputs :
+  build_checked p r = inl m -> all_vars (r_inputs r) = Some inputs -> all_vars (r_outputs r) = Some outputs ->
+  let p' := final_prog p r inputs outputs in
+  forall (val : Type) (dv : val) (opsem : nat -> list (option val) -> list (clos val) -> list val),
+  (forall n ivs c1 c2, Forall2 (fun a b => forall av, a av = b av) c1 c2 -> opsem n ivs c1 = opsem n ivs c2) ->
+  forall av,
+  run_named p' 0 val dv opsem (mmain m) [] av =
+  map (meaning p' 0 val dv opsem (bindv val dv (request_args p r inputs outputs) av)) (map snd outputs).
+Proof.
+  intros H Hi Ho p' val dv opsem Hext av.
+  pose proof (build_sem p r m inputs outputs H Hi Ho val dv opsem Hext av) as Hsem. cbv zeta in Hsem. fold p' in Hsem. rewrite <- Hsem. clear Hsem.
+  apply build_checked_inv in H. destruct H as [_ Hv].
+  pose proof (names_checked p r m inputs outputs Hi Ho Hv) as Hn. fold p' in Hn.
+  pose proof (plan_checked p r m inputs outputs Hi Ho Hv) as Hc. fold p' in Hc.
+  unfold names_ok in Hn. apply andb_prop in Hn. destruct Hn as [Hinj Hok].
+  unfold check_plan in Hc. apply andb_prop in Hc. destruct Hc as [_ Hwf]. apply wf_b_sound in Hwf.
+  unfold run_plan.
+  apply (named_is_plan p' 0 val dv opsem Hext (table_graph p' 0 (mmain m)) Hinj (mmain m) 0 [] [] [] Hok Hwf).
+  intros x [].
+Qed.
